@@ -12,7 +12,7 @@ SQ = "chartparse.instrument.StarPowerEvent.ParsedData"
 BQ = "chartparse.sync.BPMEvent.ParsedData"
 
 
-def check_chain(ctx, r, which, strict=True, recognisers=(), safe_skip=True):
+def check_chain(ctx, r, which, strict=True, recognisers=(), safe_skip=True, only=("canon", "capture", "groups")):
     """which: 'instrument' | 'sync' | 'global' | 'song' | 'all'.
     recognisers: line kinds whose every canonical line the calling property observes (a canonical line dropped as unparsable, or
     decoded to other integers, changes what the property talks about): acceptance of the canonical language, capture
@@ -24,7 +24,7 @@ def check_chain(ctx, r, which, strict=True, recognisers=(), safe_skip=True):
     for cq in recognisers:
         info = check_from_chart_line(ctx, r, cq)
         if info is not None:
-            check_line_recogniser(ctx, cq, info, r, r, r, only={"canon", "capture", "groups"})
+            check_line_recogniser(ctx, cq, info, r, r, r, only=set(only))
     if safe_skip and which != "song":
         from .partial import check_partial_scope
         from .dispatch import PARSE
